@@ -20,7 +20,9 @@ EXPLANATION = (
     "from a required definition name is wrapped in a newtype; (W3) the key under which a crate is stored in settings.crates and "
     "the key it is looked up by undergo the same transformation of the crate name (none); (W4) the IR types inside the key of "
     "the structural dedup map order their values by the data their equality compares, so that two uses of one external generic "
-    "type with different parameters stay distinct (shared with C16.W6)."
+    "type with different parameters stay distinct (shared with C16.W6); "
+    "(D2, verbatim) semver is handed the extension's version string as written; (D4, equality) name_match compares the "
+    "definition name for equality with the last path segment."
 )
 ASSUMPTIONS = ["semver::VersionReq::matches implements semver compatibility", "serde_json::from_value rejects extensions missing required members"]
 
